@@ -34,7 +34,8 @@ META = {
              't a chunk origin, half of the subprocess cases with PYTHONOP'
              'TIMIZE=1.'
              " Round 12: header slope 1 with an intercept."
-             " Round 13: the jpeg encoding (8-bit, 1 or 3 channels)."),
+             " Round 13: the jpeg encoding (8-bit, 1 or 3 channels)."
+             " Round 14: NaN voxels in a third of the float volumes."),
     "trusted_base": ["nibabel (input files)", "vlib/datasets.read_scale"],
     "assumptions": ["RGB inputs and --sharding are outside the all-in-one "
                     "command's options: sharded programs only take part in "
@@ -150,6 +151,9 @@ def make_volume(case):
     shape = (X, Y, Z) if C == 1 else (X, Y, Z, C)
     if dt.kind == "f":
         a = rng.normal(50, 30, size=shape).astype(dt)
+        if case["seed"] % 3 == 0:
+            # missing-data voxels, as masked / registered images have them
+            a.reshape(-1)[::7] = np.nan
     else:
         hi = min(int(np.iinfo(dt).max), 250)
         lo = max(int(np.iinfo(dt).min), -20)
@@ -220,10 +224,17 @@ def read_dataset(ctx, path, what):
     return info, levels
 
 
+def same_array(x, y):
+    """Equal shape, type and voxels (a NaN equals a NaN)."""
+    if x.shape != y.shape or x.dtype != y.dtype:
+        return False
+    if x.dtype.kind == "f":
+        return bool(np.array_equal(x, y, equal_nan=True))
+    return x.tobytes() == y.tobytes()
+
+
 def same_levels(a, b):
-    return len(a) == len(b) and all(
-        x.shape == y.shape and x.dtype == y.dtype
-        and x.tobytes() == y.tobytes() for x, y in zip(a, b))
+    return len(a) == len(b) and all(same_array(x, y) for x, y in zip(a, b))
 
 
 def check_case(ctx, case, mode="inproc"):
@@ -312,7 +323,8 @@ def check_case(ctx, case, mode="inproc"):
                 ctx.fail("re-encoded dataset has %d scales, source %d" % (
                     len(levels3), len(levels2)))
             for i, (a, b) in enumerate(zip(levels2, levels3)):
-                if not np.array_equal(a.astype(b.dtype), b):
+                if not np.array_equal(a.astype(b.dtype), b,
+                                      equal_nan=b.dtype.kind == "f"):
                     ctx.fail("convert-chunks changed the voxels of scale %d "
                              "(%s)" % (i, describe(case)))
         # ---- P1: the all-in-one command --------------------------------------
@@ -329,8 +341,11 @@ def check_case(ctx, case, mode="inproc"):
                              json.dumps(info2, sort_keys=True)[:300],
                              describe(case)))
             for i, (a, b) in enumerate(zip(levels1, levels2)):
-                if a.shape != b.shape or a.tobytes() != b.tobytes():
-                    bad = np.argwhere(a != b)
+                if not same_array(a, b):
+                    bad = np.argwhere(a != b) if a.shape == b.shape and \
+                        a.dtype.kind != "f" else np.argwhere(
+                            ~((a == b) | (np.isnan(a) & np.isnan(b)))) \
+                        if a.shape == b.shape else []
                     ctx.fail("scale %d (%s): the all-in-one command and the "
                              "step-by-step pipeline produce different voxels,"
                              " e.g. at (c,z,y,x)=%s: %r vs %r (%s)" % (
